@@ -32,6 +32,7 @@ type docGen struct {
 	noSig      bool
 	plain      bool // scalars are strings and small non-negative integers only
 	typed      bool // also steps whose kind comes from an explicit `type` key
+	scalarEnv  bool // env and matrix values may be any scalar kind, not only strings
 	plainNums  bool // floats always have a fractional part (an integral float cannot survive JSON as a float)
 }
 
@@ -99,7 +100,11 @@ func (g *docGen) mapSize(n int) int {
 func (g *docGen) envMap() orderedJSON {
 	pairs := [][2]any{}
 	for i, n := 0, g.mapSize(1+g.pick(3)); i < n; i++ {
-		pairs = append(pairs, [2]any{g.str("envname"), g.str("envval")})
+		var v any = g.str("envval")
+		if g.scalarEnv && g.pick(3) == 0 {
+			v = g.scalar()
+		}
+		pairs = append(pairs, [2]any{g.str("envname"), v})
 	}
 	return orderedJSON(pairs)
 }
@@ -138,10 +143,25 @@ func (g *docGen) plugins() any {
 }
 
 func (g *docGen) matrix() any {
+	mval := func(allowFloat bool) any {
+		if g.scalarEnv {
+			switch g.pick(6) {
+			case 0:
+				return g.pick(40)
+			case 1:
+				return g.pick(2) == 0
+			case 2:
+				if allowFloat {
+					return float64(g.pick(100)) + 0.25
+				}
+			}
+		}
+		return g.str("matrixval")
+	}
 	vals := func() []any {
 		l := []any{}
 		for i, n := 0, 1+g.pick(3); i < n; i++ {
-			l = append(l, g.str("matrixval"))
+			l = append(l, mval(true))
 		}
 		return l
 	}
@@ -169,11 +189,11 @@ func (g *docGen) matrix() any {
 		for i, n := 0, 1+g.pick(2); i < n; i++ {
 			var with any
 			if anon && g.pick(2) == 0 {
-				with = g.str("matrixval")
+				with = mval(false)
 			} else {
 				wp := [][2]any{}
 				for _, d := range dims {
-					wp = append(wp, [2]any{d, g.str("matrixval")})
+					wp = append(wp, [2]any{d, mval(false)})
 				}
 				with = orderedJSON(wp)
 			}
